@@ -1,7 +1,84 @@
+use std::io::Write;
+
 fn main() {
     // the real generator on the real IDL, into *our* OUT_DIR, so that the include! inside the
     // certification service's main.rs resolves when that file is included into this crate
     varlink_generator::cargo_build("/repo/varlink-certification/src/org.varlink.certification.varlink");
     println!("cargo:rerun-if-changed=/repo/varlink-certification/src/main.rs");
     println!("cargo:rerun-if-changed=/repo/varlink_generator/src/lib.rs");
+
+    // new_service(): the statements of the real run_server() up to (not including) the one that
+    // calls varlink::listen, returning listen's first argument. Derived from the source text so that
+    // the service under exploration is built exactly the way the binary builds it, whatever the
+    // shape of its state (a refactoring of ClientIds must not break the harness build).
+    let src = std::fs::read_to_string("/repo/varlink-certification/src/main.rs").expect("read main.rs");
+    // the service's source with its std::sync lock imports redirected to the scheduled locks of
+    // vh::vsched::sync (the loom convention): under the controlled scheduler every lock acquisition
+    // of the service is a scheduling point; without a scheduler they are plain std locks
+    let dir = std::path::PathBuf::from(std::env::var("OUT_DIR").unwrap());
+    std::fs::write(dir.join("cert_main.rs"), redirect_locks(&src)).unwrap();
+    let out = std::path::PathBuf::from(std::env::var("OUT_DIR").unwrap()).join("new_service.rs");
+    let mut f = std::fs::File::create(out).unwrap();
+    let body = extract(&src).unwrap_or_else(|why| panic!("cannot derive new_service from run_server: {}", why));
+    writeln!(f, "/// the service exactly as run_server() builds it (statements copied by build.rs)").unwrap();
+    writeln!(f, "#[allow(unused_variables)]\npub fn new_service() -> varlink::VarlinkService {{\n    let address: &str = \"unix:@unused\";\n    let timeout: u64 = 0;\n{}\n}}", body).unwrap();
+}
+
+fn extract(src: &str) -> Result<String, String> {
+    let start = src.find("fn run_server(").ok_or("no run_server")?;
+    let open = start + src[start..].find('{').ok_or("no body")?;
+    let call = open + src[open..].find("varlink::listen(").ok_or("no varlink::listen call")?;
+    // first argument of listen
+    let after = &src[call + "varlink::listen(".len()..];
+    let arg: String = after.trim_start().chars().take_while(|c| c.is_alphanumeric() || *c == '_').collect();
+    if arg.is_empty() {
+        return Err("listen's first argument is not a plain variable".into());
+    }
+    // statement containing the call starts after the last ';' or '}' line end before it
+    let pre = &src[open + 1..call];
+    let cut = pre.rfind(|c| c == ';').map(|i| i + 1).ok_or("no statement before listen")?;
+    Ok(format!("{}\n    {}", &pre[..cut], arg))
+}
+
+const LOCK_ITEMS: [&str; 5] = ["RwLock", "Mutex", "RwLockReadGuard", "RwLockWriteGuard", "MutexGuard"];
+
+fn redirect_locks(src: &str) -> String {
+    let mut out = String::new();
+    let mut rest = src;
+    // grouped and single imports
+    while let Some(i) = rest.find("use std::sync::") {
+        let (head, tail) = rest.split_at(i);
+        out.push_str(head);
+        let end = match tail.find(';') {
+            Some(e) => e,
+            None => break,
+        };
+        let stmt = &tail[..end];
+        let what = stmt["use std::sync::".len()..].trim();
+        let items: Vec<String> = if what.starts_with('{') && what.ends_with('}') && !what[1..what.len() - 1].contains('{') {
+            what[1..what.len() - 1].split(',').map(|x| x.trim().to_string()).filter(|x| !x.is_empty()).collect()
+        } else {
+            vec![what.to_string()]
+        };
+        let (locks, others): (Vec<String>, Vec<String>) = items.into_iter().partition(|x| LOCK_ITEMS.contains(&x.as_str()));
+        if !others.is_empty() {
+            out.push_str(&format!("use std::sync::{{{}}};", others.join(", ")));
+        }
+        if !locks.is_empty() {
+            out.push_str(&format!(" use vh::vsched::sync::{{{}}};", locks.join(", ")));
+        }
+        rest = &tail[end + 1..];
+    }
+    out.push_str(rest);
+    // fully qualified uses
+    for it in LOCK_ITEMS {
+        out = out.replace(&format!("std::sync::{}<", it), &format!("vh::vsched::sync::{}<", it));
+        out = out.replace(&format!("std::sync::{}::", it), &format!("vh::vsched::sync::{}::", it));
+    }
+    // the client half of main.rs shares its lock type with the varlink library's Connection API: that one stays std's
+    for c in ["varlink::Connection", "Connection"] {
+        out = out.replace(&format!("RwLock<{}>", c), &format!("::std::sync::RwLock<{}>", c));
+        out = out.replace(&format!("vh::vsched::sync::::std::sync::RwLock<{}>", c), &format!("::std::sync::RwLock<{}>", c));
+    }
+    out
 }
